@@ -96,6 +96,8 @@ type Engine struct {
 	multilineReverseSuffixSearcher *MultilineReverseSuffixSearcher // For (?m)^.*suffix patterns
 	digitPrefilter                 *prefilter.DigitPrefilter       // For digit-lead patterns like IP addresses
 	ahoCorasick                    *ahocorasick.Automaton          // For large literal alternations (>32 patterns)
+	ahoCorasickMaxLen              int                             // length of the longest literal of ahoCorasick
+	ahoCorasickNested              bool                            // a literal occurs inside another one: spans need the NFA (ahoCorasickSpan)
 	anchoredLiteralInfo            *AnchoredLiteralInfo            // For ^prefix.*suffix$ patterns (Issue #79)
 	prefilter                      prefilter.Prefilter
 	prefilterPartialCoverage       bool // True when prefilter doesn't cover all alternation branches
